@@ -168,3 +168,14 @@ Proof.
   intros UK SS. unfold unsafe. rewrite unsafe_fuel_S. apply self_unsafe_nonempty_g; auto.
   unfold on_path. destruct (h_id h); reflexivity.
 Qed.
+
+(* the same for every kind whose audit looks at the header's name: generic nodes and SliceNode *)
+Theorem self_unsafe_not_safe_named E T root h subs u :
+  names_own (h_kind h) = true -> self_safe E T h = Ok false ->
+  unsafe E T root (Node h subs) = Ok u -> u <> [].
+Proof.
+  intros UK SS. unfold names_own in UK. destruct (ukind_of (h_kind h)) eqn:K; try discriminate UK.
+  - unfold unsafe. rewrite unsafe_fuel_S. cbn [unsafe_g]. rewrite K. unfold own_unsafe. rewrite SS. cbn [bind].
+    destruct (node_name h) as [nm|e]; cbn [bind]; intros X; [|discriminate X]. injection X as <-. discriminate.
+  - apply self_unsafe_not_safe; assumption.
+Qed.
